@@ -193,6 +193,11 @@ def evaluate(asm, lines, idx=0, seeds=None):
         elig = None
         if ln.kind == 'instr' and len(bn) == 4:
             elig = batch.ask('eligible %d' % int.from_bytes(bn, 'little'))
+        elif ln.kind in ('li', 'unary', 'pjr', 'p0') and ln.label is None:
+            # a pseudo-instruction with literal operands: every word of its expansion is a literal instruction too
+            cn, cc = lay[False].by_line.get(i, []), lay[True].by_line.get(i, [])
+            if len(cn) == len(cc) and cn and all(len(d) == 4 for _, d in cn):
+                elig = [(batch.ask('eligible %d' % int.from_bytes(d, 'little')), d, dc) for (_, d), (_, dc) in zip(cn, cc)]
         runs = []
         for sd in seeds:
             a = batch.ask('run %s %d %d %d %d' % (bn.hex() or '00', lay[False].start[i], lay[False].start[i], sd, nn))
@@ -204,7 +209,14 @@ def evaluate(asm, lines, idx=0, seeds=None):
         offn, offc = lay[False].start[i], lay[True].start[i]
         if len(bc) < len(bn):
             out['n_compressed'] += 1
-        if elig is not None:
+        if isinstance(elig, list):
+            for q, d, dc in elig:
+                if batch.get(q) == 'yes':
+                    out['n_eligible'] += 1
+                    if len(dc) != 2:
+                        out['problems'].append(('C20', 'line {} {!r}: the word {} of its expansion is the expansion of a legal RV32C instruction but -c emitted {} bytes {}'.format(
+                            i, ln.text.strip(), d.hex(), len(dc), dc.hex())))
+        elif elig is not None:
             e = batch.get(elig)
             if e == 'yes':
                 out['n_eligible'] += 1
